@@ -176,7 +176,7 @@ class GraphParser:
         QUAL_FAM_SUBMIT_ALL: (TASK_OUTPUT_SUBMITTED, True),
         QUAL_FAM_SUBMIT_ANY: (TASK_OUTPUT_SUBMITTED, False),
         QUAL_FAM_SUBMIT_FAIL_ALL: (TASK_OUTPUT_SUBMIT_FAILED, True),
-        QUAL_FAM_SUBMIT_FAIL_ANY: (TASK_OUTPUT_SUBMITTED, False),
+        QUAL_FAM_SUBMIT_FAIL_ANY: (TASK_OUTPUT_SUBMIT_FAILED, False),
         QUAL_FAM_FINISH_ALL: (TASK_OUTPUT_FINISHED, True),
         QUAL_FAM_FINISH_ANY: (TASK_OUTPUT_FINISHED, False),
     }
